@@ -5,6 +5,7 @@ import (
 	"encoding/json"
 	"fmt"
 	"github.com/q191201771/naza/pkg/connection"
+	"github.com/q191201771/naza/pkg/fake"
 	"os"
 	"strconv"
 	"sync"
@@ -200,6 +201,9 @@ func StartWorld(k *sim.Kernel, conf LalConf, mods ...logic.ModOption) *World {
 	}}, mods...)
 	hls.ZzSetFsl(k.FS.Fsl())
 	connection.ZzBeforeWrite = func() { k.YieldPoint("yield@write", k.P.YieldWrite) }
+	fake.ZzExit = func(code int) {
+		panic(fmt.Sprintf("lal terminated the process itself: os.Exit(%d) through nazalog Fatal / Panic / Assert", code))
+	}
 	q := conf.QueueSize
 	if q == 0 {
 		q = 1024
